@@ -472,7 +472,7 @@ void profile_blast(RunCtx& ctx)
         };
         static const EF efs[] = {{MF_DUP_LOC_NAME, "$Duplicate_definition_of"}, {MF_DUP_TEMPLATE_NAME, "$Duplicate_definition_of"},
                                  {MF_INIT_IS_BRANCHPOINT, "$Location_expected"}, {MF_EMPTY_TEMPLATE, "$Missing_initial_location"},
-                                 {MF_BAD_NAME, "I"},  // "Invalid identifier" / "Identifier expected", reported on the <name> element
+                                 {MF_BAD_NAME, ""},  // "Invalid identifier" / "Identifier expected" / keyword, reported on the <name> element
                                  {-1 /* blank system text */, "$syntax_error: $unexpected $end"}};
         for (auto& ef : efs) {
             const int st = step++;
@@ -542,7 +542,7 @@ void profile_blast(RunCtx& ctx)
             for (auto& d : view_diagnostics(*s.doc)) {
                 if (!d.error || d.msg.compare(0, strlen(ef.msg), ef.msg) != 0)
                     continue;
-                if (ef.fault == MF_BAD_NAME && d.msg != "Invalid identifier" && d.msg != "Identifier expected")
+                if (ef.fault == MF_BAD_NAME && d.msg != "Invalid identifier" && d.msg != "Identifier expected" && d.msg != "$Keywords_are_not_allowed_here")
                     continue;
                 found = true;
                 if (d.path == expect)
